@@ -244,6 +244,26 @@ func c0708Worker(w *W) {
 				catch(func() { (&log.JSONLayout{BaseLayout: log.BaseLayout{FileLineLength: 48}}).ToBytes(bad) })
 				w.Count("recovered_encoder_panics", 2)
 			}
+			if i%400 == 200 {
+				// a batch of generated events through the built-in Console (on a real descriptor), File and RollingFile appenders:
+				// what arrives is what the layouts - judged case by case here - produce
+				mk := func() []*log.Event {
+					var evs []*log.Event
+					for k := 0; k < 24; k++ {
+						gk := &fgen{r: newRng(w.Spec.Seed, uint64(w.Spec.Shard)*1_000_003+uint64(i)*131+uint64(k)+5)}
+						evs = append(evs, gk.event().toEvent())
+					}
+					return evs
+				}
+				var ms []builtinMismatch
+				if pv, _ := catch(func() { ms = builtinFaithful(w.Spec.Dir, w.Spec.Name, W, mk) }); pv != nil {
+					ms = nil // a panicking layout is the business of the per-case checks
+				}
+				for _, m := range ms {
+					w.Violate(prop+":builtin-sink-alters-bytes", m.String(), gc)
+				}
+				w.Count("events_sent_through_the_builtin_sinks", 24*6)
+			}
 			if !isC08 && i%50 == 25 {
 				// a custom array encoder over a source that can be read ONCE (a queue being drained, an iterator): the event is
 				// formatted once, by one layout, so the line carries what the source held - also when the layout starts from an
